@@ -26,7 +26,7 @@ def run(ctx):
     t2 = ctx.path("gen.ndjson")
     o2 = ctx.path("gen-own.ndjson")
     ctx.driver(drv, ["-out", t2, "-gen", 1500 if ctx.quick else 20000, "-big", 30 if ctx.quick else 120,
-                     "-huge", 1 if ctx.quick else 4,
+                     "-huge", 1 if ctx.quick else 4, "-chain", 40 if ctx.quick else 120,
                      "-mal", 1500 if ctx.quick else 10000, "-own", o2])
     ctx.validate("WireTrace", t2, wirefam.keyfn, describe=wirefam.describe, only=["Inv_C02_", "Unconsumable"],
                  timeout=3000, require_events=1500)
